@@ -38,6 +38,31 @@ func runC17(c *core.Ctx) {
 	c.Rule("R2", "lazy, once, faithful arguments: nothing is serialised or sent outside the effect closure; inside it exactly one request on non-serializer-error paths with URL = fold(relativeURL, pathParam), header = DefaultHeader.Clone(), body = serializer output, declared content type; the request builders install the given header and Content-Type before sending", 8)
 	c.Rule("R3", "path-template fold threads its accumulator and prefixes BaseURL + \"/\"", 1)
 	c.Rule("R4", "failures become Err: decode only when Err == nil; serializer error returned as Err before any request; comma-ok assertion on the deserializer's result", 4)
+	// ---------------- R5: nothing handed back to a sync.Pool escapes through a result
+	c.Rule("R5", "a value handed back to a sync.Pool (Put, also deferred) is not returned, directly or through a result derived from it (buffer.Bytes(), a reader over it): the request body / decoded value must own its memory", 1)
+	{
+		isPoolPut := func(cc *ssa.CallCommon) bool { return core.StdCallee(cc) == "sync.(Pool).Put" }
+		nPut, nFn := 0, 0
+		for _, f := range p.Funcs {
+			if f.Pkg != p.Network && f.Pkg != p.Fpgo && !(f.Parent() != nil && p.InRepo(f)) {
+				continue
+			}
+			nFn++
+			core.Instrs(f, func(ins ssa.Instruction) {
+				if ci, ok := ins.(ssa.CallInstruction); ok && isPoolPut(ci.Common()) {
+					nPut++
+				}
+			})
+			for i, put := range poolEscapes(f, isPoolPut) {
+				c.Fail("R5", fmt.Sprintf("%s/pool-escape#%d", core.FuncName(f), i+1), p.InstrPos(put), core.FuncName(f)+" returns memory of the value it hands back to a sync.Pool here: the next Get (a nested or concurrent call) overwrites it while the result is still in use - a request body is no longer the serializer's output")
+			}
+		}
+		if why := c17poolSelftest(); why != "" {
+			c.Unknown("R5", "matcher-selftest", "-", why)
+		} else {
+			c.Pass("R5", "matcher-selftest", "-", fmt.Sprintf("positive and negative examples recognised; %d sync.Pool.Put calls in %d functions, none followed by a return of pooled memory", nPut, nFn))
+		}
+	}
 	// ---------------- generic constructors: functions in network returning a func type that wraps MonadIONewGenerics
 	var generic []*ssa.Function
 	for _, f := range p.Funcs {
@@ -695,4 +720,61 @@ func c17appliesHeader(p *core.Prog, f *ssa.Function, withCT bool) (bool, string)
 		}
 	}
 	return true, "header installed where non-nil" + map[bool]string{true: "; Content-Type added where non-empty", false: ""}[withCT]
+}
+
+
+const c17poolSnippet = `package snippet
+
+type Pool struct{}
+
+func (p *Pool) Put(x interface{}) {}
+func (p *Pool) Get() interface{}  { return nil }
+
+type Buf struct{ b []byte }
+
+func (b *Buf) Bytes() []byte { return b.b }
+
+var pool Pool
+
+func wrap(b []byte) *Buf { return &Buf{b} }
+
+func bad() []byte { b := pool.Get().(*Buf); defer pool.Put(b); return b.Bytes() }
+func badWrapped() *Buf { b := pool.Get().(*Buf); defer pool.Put(b); return wrap(b.Bytes()) }
+func badDirect() *Buf { b := pool.Get().(*Buf); pool.Put(b); return b }
+func good() []byte {
+	b := pool.Get().(*Buf)
+	defer pool.Put(b)
+	out := make([]byte, len(b.Bytes()))
+	copy(out, b.Bytes())
+	return out
+}
+func goodErrPath(fail bool) *Buf {
+	b := pool.Get().(*Buf)
+	if fail {
+		pool.Put(b)
+		return nil
+	}
+	return b
+}
+`
+
+func c17poolSelftest() string {
+	sp, err := core.BuildSnippet(c17poolSnippet)
+	if err != nil {
+		return "cannot build the self-test snippet: " + err.Error()
+	}
+	isPut := func(cc *ssa.CallCommon) bool {
+		g := cc.StaticCallee()
+		return g != nil && g.Name() == "Put" && g.Signature.Recv() != nil
+	}
+	for name, want := range map[string]int{"bad": 1, "badWrapped": 1, "badDirect": 1, "good": 0, "goodErrPath": 0} {
+		f := sp.Func(name)
+		if f == nil {
+			return "self-test function " + name + " missing"
+		}
+		if got := len(poolEscapes(f, isPut)); got != want {
+			return fmt.Sprintf("matcher self-test: %s flagged %d times, expected %d", name, got, want)
+		}
+	}
+	return ""
 }
